@@ -15,8 +15,15 @@ find_prog_section match and the address comparison are the generated expressions
    sections, section 0 null / NULL-typed sections empty, distinct segment indices, `layoutDomB`);
    validate_silent_reloaded: validate reads only type/size/offset/address of sections and
    type/filesz/offset/vaddr of segments (validate_congr), so the reloaded object is silent too PROVIDED
-   the loader reports those fields as saved — that composition with the loader model (C02/C05) is
-   NOT done here and is covered by the correspondence check.  validate_silent_save already covers
+   the loader reports those fields as saved.  That hypothesis is discharged in Props/Compose.lean:
+   Compose.validate_silent_reloaded_unconditional (any selection `sel`; `C03.LayoutOk` and `SavedSane` as
+   hypotheses) and Compose.validate_silent_reloaded_flat (flat writer-domain objects, hypotheses on the
+   INPUT object only — `FlatDomain` — plus "no address/offset range of the saved object reaches 2^64"):
+   save, then the model's `load` of the saved bytes (eager or lazy, string- or file-backed stream, into
+   any object without address translation) succeeds and `validate` of the loaded object returns no
+   complaint (composition `C02.load_eq_spec` ∘ `C03.save_decodes`, see families/c02.py).  Not covered by
+   the composed theorem: nested segments (validate_silent_reloaded_nested still carries the hypothesis).
+   validate_silent_save already covers
    objects with nested segments whose nested segments are not PT_LOAD with filesz > 0 (validate ignores
    them; they need not be selected).  validate_silent_save_nested / validate_silent_reloaded_nested
    (C04.save_layoutOk_nested) add the remaining case: a PT_LOAD with filesz > 0 that is itself nested
@@ -42,7 +49,10 @@ THEOREMS = ["ElfioVerif.C20.validate_overlap", "ElfioVerif.C20.validate_overlap_
             "ElfioVerif.C20.validate_skew", "ElfioVerif.C20.validate_skew_only_if",
             "ElfioVerif.C20.validate_overlap_witness_prefix", "ElfioVerif.C20.validate_silent",
             "ElfioVerif.C20.validate_silent_save", "ElfioVerif.C20.validate_silent_reloaded",
-            "ElfioVerif.C20.validate_silent_save_nested", "ElfioVerif.C20.validate_silent_reloaded_nested"]
+            "ElfioVerif.C20.validate_silent_save_nested", "ElfioVerif.C20.validate_silent_reloaded_nested",
+            "ElfioVerif.Compose.validate_silent_reloaded_unconditional",
+            "ElfioVerif.Compose.validate_silent_reloaded_flat"]
+EXTRA_IMPORTS = ["ElfioVerif.Props.Compose"]
 SITES = ["validate", "find_prog", "is_offset_in_section", "get_virtual_addr"]
 RULE = ("writer-domain programs x 4 configurations: save, validate, reload, validate (silence expected); then for "
         "sampled (quick) / all (thorough) ordered pairs of sections: force an overlap by rewriting one sh_offset in "
